@@ -271,6 +271,12 @@ def fixed_templates():
     t.append("def test(a: Qchar) -> Qchar:\n    return chr(ord(a))")
     t.append("def test(a: Qint[4]) -> Qint[4]:\n    a += 1\n    a -= 2\n    a ^= 3\n    return a")
     t.append("def test(a: Qint[4]) -> Qint[4]:\n    a <<= 1\n    a >>= 2\n    return a")
+    # empty tuples (unmodelled), a nested if in a then-branch (rejected: _iftargN read before it is bound)
+    t.append("def test(a: bool) -> bool:\n    u = ((), a)\n    return u[1]")
+    t.append("def test(a: bool) -> bool:\n    t = ()\n    return a")
+    t.append("def test(a: bool, b: bool, c: Qint[2]) -> Qint[2]:\n    if a:\n        if b:\n            c = c + 1\n    return c")
+    t.append("def test(a: bool, b: bool, c: Qint[2]) -> Qint[2]:\n    if a:\n        c = c + 1\n    else:\n        if b:\n            c = c + 2\n    return c")
+    t.append("def test(a: bool) -> bool:\n    t = (a,)\n    u = t\n    return u[0]")
     # statements the translator rejects
     t.append("def test(a: bool) -> bool:\n    b: bool = a\n    return b")
     t.append("def test(a: bool) -> bool:\n    pass\n    return a")
@@ -565,6 +571,8 @@ class Converter:
         if isinstance(e, ast.Constant):
             if isinstance(e.value, ast.Tuple):
                 u["Constant(Tuple)"] += 1
+                if not e.value.elts:
+                    raise Unmodelled("empty tuple")
                 elts = []
                 for x in e.value.elts:
                     if not isinstance(x, ast.Constant) or isinstance(x.value, (ast.AST,)):
@@ -577,6 +585,9 @@ class Converter:
                 raise Unmodelled("constant holding an ast node")
             return f"(EConst {c_cst(e.value, u)})"
         if isinstance(e, ast.Tuple):
+            if not e.elts:
+                # the code counts Tuple[()] as one bit in _type_size although it has no bit name
+                raise Unmodelled("empty tuple")
             u["Tuple"] += 1
             return f"(ETuple {c_list([self.exp(x) for x in e.elts])})"
         if isinstance(e, ast.Compare):
@@ -996,6 +1007,7 @@ def build_files(results):
         txt += "Eval vm_compute in (chk_eval cs_ev samples).\n"
         txt += "Eval vm_compute in (chk_thm cs_all samples).\n"
         txt += "Eval vm_compute in (chk_mixed cs_all).\n"
+        txt += "Eval vm_compute in (chk_side cs_all).\n"
         files.append((f"x{fi:04d}", txt, [r["id"] for r in rs]))
     return files
 
@@ -1053,6 +1065,7 @@ def collect(tier, seed, jobs=16, only=None, progs=None):
     mismatches, coq_err = [], []
     guard_out, eval_codes, thm_codes = set(), collections.Counter(), collections.Counter()
     mixed, literal = set(), set()
+    hyg_out, wf_out = set(), set()
     eval_dis, thm_fail, eval_only_shadow, eval_dis_ids = [], [], [], []
     checked = set()
     if ok_vo:
@@ -1069,11 +1082,11 @@ def collect(tier, seed, jobs=16, only=None, progs=None):
                 coq_err.append(dict(file=name, programs=len(ids_), error=(so + se)[-600:] or f"coqc exit code {rc} (timeout?)"))
                 continue
             vals = C.parse_results(so)
-            if len(vals) != 6:
-                coq_err.append(dict(file=name, error=f"6 evaluations expected, {len(vals)} printed"))
+            if len(vals) != 7:
+                coq_err.append(dict(file=name, error=f"7 evaluations expected, {len(vals)} printed"))
                 continue
             try:
-                lt, ls, lg, le, lth, lmx = [C.parse_N_list(v) for v in vals]
+                lt, ls, lg, le, lth, lmx, lsd = [C.parse_N_list(v) for v in vals]
             except Exception:
                 coq_err.append(dict(file=name, error="unparsable output: " + so[-300:]))
                 continue
@@ -1083,6 +1096,11 @@ def collect(tier, seed, jobs=16, only=None, progs=None):
                 mismatches.append(dict(kind=TRANS_CODES.get(code % 10, str(code % 10)), source=r["src"], origin=r["origin"],
                                        implementation_raised=r.get("raised"), file=name))
             guard_out.update(lg)
+            for code in lsd:
+                if code % 10 in (1, 3):
+                    hyg_out.add(code // 10)
+                if code % 10 in (2, 3):
+                    wf_out.add(code // 10)
             for code in lmx:
                 if code % 10 in (1, 3):
                     mixed.add(code // 10)
@@ -1134,6 +1152,10 @@ def collect(tier, seed, jobs=16, only=None, progs=None):
                           heavy_multiplications=len([r for r in okr if r.get("heavy")]),
                           constructs=dict(used.most_common()), coq_files=len(files),
                           outside_theorem_guards=len(guard_out),
+                          guard_is="seq_ok only (stmt_guard / body_guard of M_Texp.v)",
+                          numbering_table_fails_hygiene=len(hyg_out - guard_out),
+                          outside_signature_or_syntax_hypotheses=len(wf_out),
+                          outside_hypotheses_examples=[by_id[i]["src"] for i in sorted(wf_out | (hyg_out - guard_out))[:10]],
                           outside_guard_examples=[by_id[i]["src"] for i in sorted(guard_out)[:40]]),
         evaluator_vs_shadow=dict(agree=eval_codes[0], only_shadow=eval_codes[2], only_model=eval_codes[3], neither=eval_codes[4],
                                  disagree_explained_by_mixed_width_if=n_dis_explained,
